@@ -131,13 +131,13 @@ func judgeC05Flat(args, real, drv json.RawMessage) *core.Verdict {
 			l = append(l, c)
 		}
 		sort.Strings(l)
-		return core.Fail("nondeterministic-load:"+strings.Join(l, "|")+":"+a.nameReuse(), "repeated loads of one acyclic extends chain give different outcomes: "+strings.Join(r.Classes, ", "))
+		return core.Fail("nondeterministic-load:"+strings.Join(l, "|")+":"+a.trackerClash(), "repeated loads of one acyclic extends chain give different outcomes: "+strings.Join(r.Classes, ", "))
 	}
 	if _, ok := r.Flat["ok"]; !ok {
 		return core.Skip(fmt.Sprintf("the flattened model is rejected: %v", r.Flat["err"]))
 	}
 	if _, ok := r.Chain["ok"]; !ok {
-		return core.Fail("acyclic-rejected:"+strings.TrimPrefix(r.Classes[0], "err:")+":"+a.nameReuse(), fmt.Sprintf("an acyclic extends chain whose flattened form loads is rejected: %v", r.Chain["err"]))
+		return core.Fail("acyclic-rejected:"+strings.TrimPrefix(r.Classes[0], "err:")+":"+a.trackerClash(), fmt.Sprintf("an acyclic extends chain whose flattened form loads is rejected: %v", r.Chain["err"]))
 	}
 	cs1, fs1 := servicesOf(r.Chain), servicesOf(r.Flat)
 	var bad []string
